@@ -124,3 +124,95 @@ impl Limiter for RetryLimiter {
         }
     }
 }
+
+/// Deterministic address-validation tokens. The library default signs tokens with keys it rotates
+/// by the *wall clock* (`s2n_quic_platform::time::now()`), which makes Retry token bytes - and
+/// with them the ciphertext of the client's second Initial - differ between executions of one
+/// plan. STUB: token format and MAC (a keyed 64-bit hash over address, original destination
+/// connection id and nonce; single use). REAL: everything the transport does with the verdict
+/// (Retry, address validation, amplification limit).
+#[derive(Debug)]
+pub struct SimAddressToken {
+    pub key: u64,
+    pub counter: u64,
+    pub seen: std::collections::BTreeSet<(u64, u64)>,
+}
+
+impl SimAddressToken {
+    pub fn new(key: u64) -> Self {
+        SimAddressToken { key, counter: 0, seen: Default::default() }
+    }
+    fn mac(&self, ctx: &s2n_quic_core::token::Context<'_>, odcid: &[u8], nonce: u64) -> u64 {
+        let addr = format!("{:?}", ctx.remote_address);
+        hashn(self.key, &[crate::kernel::hash_bytes(addr.as_bytes()), crate::kernel::hash_bytes(odcid), nonce])
+    }
+}
+
+impl s2n_quic_core::token::Format for SimAddressToken {
+    // kind(1) odcid_len(1) odcid(20) nonce(8) mac(8)
+    const TOKEN_LEN: usize = 38;
+
+    fn generate_new_token(
+        &mut self,
+        _context: &mut s2n_quic_core::token::Context<'_>,
+        _source_connection_id: &connection::LocalId,
+        _output_buffer: &mut [u8],
+    ) -> Option<()> {
+        // like the library default: NEW_TOKEN is not issued
+        None
+    }
+
+    fn generate_retry_token(
+        &mut self,
+        context: &mut s2n_quic_core::token::Context<'_>,
+        original_destination_connection_id: &connection::InitialId,
+        output_buffer: &mut [u8],
+    ) -> Option<()> {
+        if output_buffer.len() != Self::TOKEN_LEN {
+            return None;
+        }
+        let odcid = original_destination_connection_id.as_bytes();
+        self.counter += 1;
+        let nonce = hashn(self.key, &[0x6e6f, self.counter]);
+        let mac = self.mac(context, odcid, nonce);
+        output_buffer.fill(0);
+        output_buffer[0] = 0x52;
+        output_buffer[1] = odcid.len() as u8;
+        output_buffer[2..2 + odcid.len()].copy_from_slice(odcid);
+        output_buffer[22..30].copy_from_slice(&nonce.to_le_bytes());
+        output_buffer[30..38].copy_from_slice(&mac.to_le_bytes());
+        Some(())
+    }
+
+    fn validate_token(&mut self, context: &mut s2n_quic_core::token::Context<'_>, token: &[u8]) -> Option<connection::InitialId> {
+        if token.len() != Self::TOKEN_LEN || token[0] != 0x52 {
+            return None;
+        }
+        let n = token[1] as usize;
+        if n > 20 {
+            return None;
+        }
+        let odcid = &token[2..2 + n];
+        if token[2 + n..22].iter().any(|b| *b != 0) {
+            return None;
+        }
+        let nonce = u64::from_le_bytes(token[22..30].try_into().ok()?);
+        let mac = u64::from_le_bytes(token[30..38].try_into().ok()?);
+        if self.mac(context, odcid, nonce) != mac {
+            return None;
+        }
+        // single use (the default keeps a duplicate filter as well)
+        if !self.seen.insert((nonce, mac)) {
+            return None;
+        }
+        connection::InitialId::try_from_bytes(odcid)
+    }
+}
+
+impl s2n_quic::provider::address_token::Provider for SimAddressToken {
+    type Format = Self;
+    type Error = core::convert::Infallible;
+    fn start(self) -> Result<Self, Self::Error> {
+        Ok(self)
+    }
+}
